@@ -144,6 +144,11 @@ func (c *Config) Get(format string) (info *Info, err error) {
 	if err = mergo.Merge(info, c.Info, mergo.WithOverride); err != nil {
 		return nil, fmt.Errorf("failed to merge config into info: %w", err)
 	}
+	// mergo copies pointers as they are: give the copy key ids of its own so
+	// that merging an override below cannot write through to c.Info
+	info.Deb.Signature.KeyID = cloneString(c.Deb.Signature.KeyID)
+	info.RPM.Signature.KeyID = cloneString(c.RPM.Signature.KeyID)
+	info.APK.Signature.KeyID = cloneString(c.APK.Signature.KeyID)
 	override, ok := c.Overrides[format]
 	if !ok {
 		// no overrides
@@ -161,6 +166,14 @@ func (c *Config) Get(format string) (info *Info, err error) {
 	}
 	info.Contents = contents
 	return info, nil
+}
+
+func cloneString(s *string) *string {
+	if s == nil {
+		return nil
+	}
+	v := *s
+	return &v
 }
 
 // Validate ensures that the config is well typed.
